@@ -485,3 +485,137 @@ func TestVerif_C36(t *testing.T) {
 		}
 	})
 }
+
+// ---------------------------------------------------------------------------------------------
+// file formats: dolt dump -r csv|json|parquet -> dolt table import -r into the same schema
+
+var c36FormatsRule = "per case one of csv / json / parquet: a database of 1-2 tables from the C36 generator restricted to the value classes the format carries " +
+	"(restriction list in the assumptions), `dolt dump -r <format>`, then in a fresh repository the generator's CREATE TABLE statements and `dolt table import -r <table> <file>` per table; " +
+	"the rows of every table of source and copy are compared as multisets of (IS NULL, HEX()/CAST AS CHAR/...) observations. " +
+	"Non-trivial: at least one string with a quote and a backslash and one NULL (parquet: also a binary value containing NUL); distinct by the hash of the build script and the format."
+
+func (e *c36Env) formatRoundTrip(db *c36DB, format string, keep bool) (violation string, skipped string, err error) {
+	caseDir, err := os.MkdirTemp(e.root, "fcase")
+	if err != nil {
+		return "", "", err
+	}
+	if !keep {
+		defer os.RemoveAll(caseDir)
+	}
+	src, err := e.newRepo(caseDir, "src", "db")
+	if err != nil {
+		return "", "", err
+	}
+	dst, err := e.newRepo(caseDir, "dst", "db")
+	if err != nil {
+		return "", "", err
+	}
+	if _, se, err := e.run(src, []byte(db.buildScript()), "sql"); err != nil {
+		if err == errC36Timeout {
+			return "", "", err
+		}
+		return "", "build rejected: " + se, nil
+	}
+	fp, names := db.rowsFingerprintScript()
+	srcOut, se, err := e.run(src, []byte(fp), "sql", "-r", "csv")
+	if err != nil {
+		if err == errC36Timeout {
+			return "", "", err
+		}
+		return "", "source not observable: " + se, nil
+	}
+	srcSecs, perr := c36ParseSections(srcOut, names)
+	if perr != nil {
+		return "", "", fmt.Errorf("source observation unparsable: %v\n%s", perr, c36Clip(srcOut))
+	}
+	if so, se, err := e.run(src, nil, "dump", "-r", format, "-d", "out"); err != nil {
+		if err == errC36Timeout {
+			return "", "", err
+		}
+		return fmt.Sprintf("`dolt dump -r %s` failed: %v\nstdout: %s\nstderr: %s", format, err, c36Clip(so), c36Clip(se)), "", nil
+	}
+	if _, se, err := e.run(dst, []byte(db.schemaScript()), "sql"); err != nil {
+		if err == errC36Timeout {
+			return "", "", err
+		}
+		return "", "schema rejected in the destination: " + se, nil
+	}
+	for i := range db.tables {
+		name := db.tables[i].name
+		file := filepath.Join(src, "out", name+"."+format)
+		if _, err := os.Stat(file); err != nil {
+			return fmt.Sprintf("`dolt dump -r %s` wrote no file for table %q: %v", format, name, err), "", nil
+		}
+		if so, se, err := e.run(dst, nil, "table", "import", "-r", name, file); err != nil {
+			if err == errC36Timeout {
+				return "", "", err
+			}
+			return fmt.Sprintf("`dolt table import -r %s %s.%s` failed: %v\nstdout: %s\nstderr: %s", name, name, format, err, c36Clip(so), c36Clip(se)), "", nil
+		}
+	}
+	dstOut, se, err := e.run(dst, []byte(fp), "sql", "-r", "csv")
+	if err != nil {
+		if err == errC36Timeout {
+			return "", "", err
+		}
+		return fmt.Sprintf("the copy cannot be observed like the source: %v\nstderr: %s", err, c36Clip(se)), "", nil
+	}
+	dstSecs, perr := c36ParseSections(dstOut, names)
+	if perr != nil {
+		return fmt.Sprintf("the copy's observation has another shape than the source's: %v", perr), "", nil
+	}
+	return c36DiffSections(srcSecs, dstSecs), "", nil
+}
+
+func TestVerif_C36_formats(t *testing.T) {
+	var assumptions []string
+	for _, f := range []string{"csv", "json", "parquet", "all"} {
+		for _, r := range c36FormatRestrictions[f] {
+			assumptions = append(assumptions, f+": "+r)
+		}
+	}
+	assumptions = append(assumptions, c36Assumptions[0], c36Assumptions[1], c36Assumptions[4])
+	rec := vh.NewRecorder("C36", "formats", "exploration", c36FormatsRule, assumptions...)
+	defer rec.Write(t)
+	e := c36Setup(t)
+	defer os.RemoveAll(e.root)
+	keep := os.Getenv("C36_KEEP") != ""
+	vh.Check(t, "formats", 24, 30, func(rt *rapid.T) {
+		format := []string{"csv", "json", "parquet"}[rapid.IntRange(0, 2).Draw(rt, "format")]
+		gate := c36NewGate()
+		gate.format = format
+		db := c36GenFormatDB(rt, gate)
+		rec.Excluded(gate.excluded)
+		sum, classes := db.summary()
+		build := db.buildScript()
+		desc := fmt.Sprintf("format[%s] %s build=%s", format, sum, c36Hash(build))
+		nontrivial := classes["val:str_quote_bs"] && classes["val:null"] && (format != "parquet" || classes["val:bin_nul"])
+		cl := []string{"format:" + format}
+		for k := range classes {
+			cl = append(cl, k)
+		}
+		sort.Strings(cl)
+		viol, skipped, err := e.formatRoundTrip(db, format, keep)
+		if err != nil {
+			vh.Inconclusive(t, "child process trouble: %v", err)
+		}
+		if skipped != "" {
+			rec.Case(desc, false, "build_rejected")
+			tail := skipped
+			if len(tail) > 300 {
+				tail = tail[len(tail)-300:]
+			}
+			fmt.Printf("C36-BUILD-REJECTED: …%s\n", strings.ReplaceAll(tail, "\n", " | "))
+			rt.Skip("build rejected")
+		}
+		rec.Case(desc, nontrivial, cl...)
+		rec.Class("format_restricted_draws", gate.restricted)
+		if viol != "" && os.Getenv("C36_SURVEY") != "" {
+			fmt.Printf("SURVEY-VIOLATION format[%s]: %s\n--- build script ---\n%s\n--- end ---\n", format, viol, c36Clip(build))
+			return
+		}
+		if viol != "" {
+			rt.Fatalf("C36 violated: dump -r %s and table import do not reproduce the rows.\n%s\n--- build script ---\n%s", format, viol, build)
+		}
+	})
+}
